@@ -54,18 +54,20 @@ POOLS = {
     'primarykey': (WORD, ['primary key', 'PRIMARY KEY'], 'Token.Keyword'),
     'orddir': (WORD, ['asc', 'desc', 'DESC', 'asc nulls first', 'desc nulls last'], 'Token.Keyword.Order'),
     'name': (WORD, ['foo', 'bar', 't1', 'x', 'col_a', 'é1', '_v', 'a$b', 'Tbl', 'zz9'], 'Token.Name'),
-    'dqname': (WORD, ['"q n"', '"Sel"', '"a.b"', '"from"', '"x;y"', '"é"'], 'Token.Literal.String.Symbol'),
+    'dqname': (WORD, ['"q n"', '"Sel"', '"a.b"', '"from"', '"x;y"', '"é"', '"two \r\nlines\\q"'], 'Token.Literal.String.Symbol'),
     'btname': (WORD, ['`b`', '`b c`', '`select`', '`x.y`'], 'Token.Name'),
     'alias': (WORD, ['a1', 'al', 'r', 'tot', '"Al 1"', '`ba`', 'x2'], None),
     'fname': (WORD, ['f', 'my_func', 'calc2', 'foo_fn'], 'Token.Name'),
     'num': (WORD, ['1', '42', '3.5', '0', '100'], 'Token.Literal.Number'),
-    'str': (WORD, ["'s'", "'it''s'", "'a;b'", "''", "'x y'", "'2020-01-01'"], 'Token.Literal.String.Single'),
+    'str': (WORD, ["'s'", "'it''s'", "'a;b'", "''", "'x y'", "'2020-01-01'", "'C:\\temp\\logs \r\nD:\\x'", "'l1  \n l2'"],
+            'Token.Literal.String.Single'),
     'ph': (WORD, ['?', '%s', ':p1', '$1', '%(nm)s'], 'Token.Name.Placeholder'),
     'typename': (WORD, ['integer', 'text', 'varchar', 'numeric'], None),
     'builtin': (WORD, ['date', 'timestamp', 'DATE', 'TIMESTAMP'], None),
     'interval': (WORD, ['interval', 'INTERVAL'], None),
     'unit': (WORD, ['day', 'hour', 'month', 'DAY', 'year'], 'Token.Keyword'),
     'op': (OPER, ['+', '-', '/', '||', '%'], 'Token.Operator'),
+    'sign': (OPER, ['-', '+'], 'Token.Operator'),
     'cmpop': (OPER, ['=', '<', '>', '<=', '>=', '<>', '!='], 'Token.Operator.Comparison'),
     'eq': (OPER, ['='], 'Token.Operator.Comparison'),
     'star': (OPER, ['*'], 'Token.Wildcard'),
